@@ -14,6 +14,7 @@ import (
 	"encoding/base64"
 	"encoding/json"
 	"fmt"
+	"net"
 	"os"
 	"os/exec"
 	"path/filepath"
@@ -190,6 +191,31 @@ func run(c *lib.Ctx) {
 	lx := lexClasses(m.sandbox, m.fix)
 	m.b = budgets(c)
 
+	// the silent peer: takes connections, never answers, never hangs up. The
+	// second validate load of every case names it wherever the first names a
+	// closed port.
+	if sl, err := net.Listen("tcp", fmt.Sprintf("127.0.0.1:%d", lib.FreePort())); err == nil {
+		defer sl.Close()
+		os.Setenv("VERIF_C11_SILENT", fmt.Sprint(sl.Addr().(*net.TCPAddr).Port))
+		var held []net.Conn
+		var hmu sync.Mutex
+		go func() {
+			for {
+				cn, err := sl.Accept()
+				if err != nil {
+					return
+				}
+				c.Count("silent_peer_connections", 1)
+				hmu.Lock()
+				held = append(held, cn)
+				hmu.Unlock()
+			}
+		}()
+		c.Count("silent_peer_connections", 0)
+	} else {
+		c.Assume("no silent peer could be set up: " + err.Error())
+	}
+
 	var dvs []*dirVocab
 	vocSizes := map[string]int{}
 	for _, d := range dirs {
@@ -267,6 +293,7 @@ type dirState struct {
 	mu       sync.Mutex
 	acc      map[int]bool
 	outcomes map[string][]int // outcome class -> case ids
+	keyDep   map[string][]int // rejected with a message naming the site address, by outcome class
 }
 
 func (ds *dirState) number(cs []*Case) []*Case {
@@ -302,6 +329,61 @@ func (m *monitor) pipeline(idx int, dv *dirVocab) {
 	for _, k := range m.stratifiedSample(ds, byID, m.b.startPer) {
 		kk := *k
 		startCases = append(startCases, &kk)
+		// two-key site blocks: every tls case, a quarter of the others
+		if dv.name == "tls" || mix(k.ID)%4 == 0 {
+			for keys := 1; keys <= 2; keys++ {
+				kk := *k
+				kk.Keys = keys
+				startCases = append(startCases, &kk)
+			}
+		}
+	}
+	// cases rejected with a message naming the site address, under two-key blocks
+	var keyDep []int
+	for oc, ids := range ds.keyDep {
+		// a few of every kind of such message: the two shortest spellings
+		// (least else to go wrong in them) and some others
+		size := func(id int) int {
+			k := byID[id]
+			if k == nil {
+				return 1 << 20
+			}
+			n := len(k.Args)
+			for _, l := range k.Lines {
+				n += len(l)
+			}
+			return n
+		}
+		sort.Slice(ids, func(i, j int) bool {
+			if a, b := size(ids[i]), size(ids[j]); a != b {
+				return a < b
+			}
+			return mix(ids[i]) < mix(ids[j])
+		})
+		_ = oc
+		if len(ids) > 2 {
+			rest := ids[2:]
+			sort.Slice(rest, func(i, j int) bool { return mix(rest[i]) < mix(rest[j]) })
+		}
+		if len(ids) > 6 {
+			ids = ids[:6]
+		}
+		keyDep = append(keyDep, ids...)
+	}
+	sort.Ints(keyDep)
+	for i, id := range keyDep {
+		if i >= m.b.startPer {
+			break
+		}
+		if k := byID[id]; k != nil {
+			for keys := 1; keys <= 2; keys++ {
+				kk := *k
+				kk.Keys = keys
+				startCases = append(startCases, &kk)
+			}
+			c.Count("start_cases_key_dependent_verdict", 1)
+			m.sample("key-dependent-verdict/"+dv.name, 2, k.ID, oneLine(k.Key()))
+		}
 	}
 	ds.number(startCases)
 	m.runAll(dv.name+"-start", "start", startCases, func(k *Case, r *caseRes) { m.judgeStartOne(k, r) })
@@ -819,6 +901,37 @@ func (m *monitor) abnormal(tag, mode string, k *Case, prefix []*Case, o *outPars
 		c.Nontrivial(k.Directive())
 		what := fmt.Sprintf("load %d of `%s` never returns: goroutine parked in %s", o.pendRun, oneLine(k.Key()), frame)
 		m.deferViolation(k.ID, key, what, witness)
+	case strings.Contains(o.stall, " iowait "):
+		// blocked reading from a peer that never answers; confirm alone with three times the window
+		ioFrame := o.stall[strings.Index(o.stall, " iowait ")+len(" iowait "):]
+		key := "C11/hang-on-silent-peer/" + ioFrame
+		witness["blocked_below"] = ioFrame
+		witness["goroutine"] = dumpExcerpt(dump)
+		witness["note"] = "addresses in load 2 point at a listener that accepts and never answers (load 1: closed port)"
+		m.mu.Lock()
+		seen := m.deadlocks[key]
+		m.mu.Unlock()
+		if seen < 2 {
+			o2, _ := m.runChild(tag+"-ioconfirm", mode, []*Case{k}, m.tParkMs.Load()*3, 120000)
+			if !(strings.Contains(o2.stall, " iowait ") && o2.pending && o2.pendID == k.ID) {
+				if len(o2.results) == 1 {
+					c.Count("slow_cases", 1)
+					judge(k, o2.results[0])
+					return
+				}
+				c.Eval(1)
+				c.Inconclusive(fmt.Sprintf("load blocked on the silent peer once but ended differently when re-run alone: %s", oneLine(k.Key())))
+				return
+			}
+			witness["confirmed"] = fmt.Sprintf("re-run alone in a fresh process: still blocked after %d ms without any progress", m.tParkMs.Load()*18)
+		}
+		m.mu.Lock()
+		m.deadlocks[key] += 10 // ten of these end the batch: each costs seconds
+		m.mu.Unlock()
+		c.Count("hangs_on_silent_peer", 1)
+		c.Eval(1)
+		c.Nontrivial(k.Directive())
+		m.deferViolation(k.ID, key, fmt.Sprintf("load %d of `%s` does not return: blocked below %s waiting for a peer named in its arguments that accepts the connection and never answers", o.pendRun, oneLine(k.Key()), ioFrame), witness)
 	case o.stall != "" || res.TimedOut:
 		// slow or spinning: not decidable from the dump; give it 10x alone
 		o2, _ := m.runChild(tag+"-slow", mode, []*Case{k}, m.tParkMs.Load(), 300000)
@@ -993,6 +1106,12 @@ func (m *monitor) judgeOne(ds *dirState, k *Case, r *caseRes) {
 	ds.mu.Lock()
 	if r1.Acc {
 		ds.acc[k.ID] = true
+	} else if strings.Contains(r1.Err, "127.0.0.1") && !strings.Contains(k.Key(), "127.0.0.1") && !parserLevel(r1.Err) {
+		// the verdict names the site it was reached for: it may be another one for another key
+		if ds.keyDep == nil {
+			ds.keyDep = map[string][]int{}
+		}
+		ds.keyDep[oc] = append(ds.keyDep[oc], k.ID)
 	}
 	ds.outcomes[oc] = append(ds.outcomes[oc], k.ID)
 	ds.mu.Unlock()
@@ -1088,7 +1207,10 @@ func (m *monitor) judgeStartOne(k *Case, r *caseRes) {
 	}
 	c.Eval(1)
 	v, s := r.Runs[0], r.Runs[1]
-	text := k.Text("127.0.0.1:<free port>")
+	text := k.Text(strings.NewReplacer("1111", "<free port>", "2222", "<free port 2>").Replace(k.Addr(1111, 2222)))
+	if k.Keys != 0 {
+		c.Count("start_cases_two_keys", 1)
+	}
 	if v.Panic != "" {
 		// reported with a minimised signature by the validate phases
 		c.Count("start_phase_validate_panics", 1)
